@@ -13,6 +13,7 @@ for f in test/test_*.py test/smoke_test.py; do
   esac
   k=0; while [ $k -lt $N ]; do JOBS="$JOBS $f:$k/$N"; k=$((k+1)); done
 done
+# test_distributed uses fixed TCP ports: concurrent suite runs serialise it through a lock file.
 # watchdog: a pytest process that has written its junit file but does not exit (orphaned multiprocessing child in
 # test_memmap) is killed 60 s later
 ( while sleep 30; do
@@ -23,7 +24,7 @@ done
   done ) &
 WATCHDOG=$!
 cd "$REPO"; echo $JOBS | tr ' ' '\n' | env -u TENSORDICT_VERIF PYTHONPATH="$REPO:$HERE" xargs -P 16 -I{} sh -c \
-  'j={}; f=${j%%:*}; sh_=${j##*:}; b=$(basename $f .py)-$(echo $sh_ | tr / _); VERIF_SHARD=$sh_ timeout 3000 /venv/bin/python -m pytest -q -p no:cacheprovider -p shard_plugin --timeout=900 --continue-on-collection-errors --junitxml='"$OUT"'/$b.xml $f > '"$OUT"'/$b.log 2>&1'
+  'j={}; f=${j%%:*}; sh_=${j##*:}; b=$(basename $f .py)-$(echo $sh_ | tr / _); L=; case $f in *test_distributed*) L="flock /tmp/.td_dist_port.lock";; esac; VERIF_SHARD=$sh_ $L timeout 3000 /venv/bin/python -m pytest -q -p no:cacheprovider -p shard_plugin --timeout=900 --continue-on-collection-errors --junitxml='"$OUT"'/$b.xml $f > '"$OUT"'/$b.log 2>&1'
 # test_tensordict.py dominates: it is additionally split below if present (handled by pytest-level -k in callers if needed)
 kill $WATCHDOG 2>/dev/null
 /venv/bin/python - "$OUT" <<'PY'
